@@ -39,11 +39,18 @@ func execNetworkSimplex(g *graph.DGraph, params graph.Params) {
 		},
 	)
 
+	leftmost := math.Inf(1)
 	for _, l := range g.Layers {
 		for _, n := range l.Nodes {
 			l.H = max(l.H, n.H)
-			n.X = float64(p.nodes[n].Layer)
+			// the auxiliary graph separates the node centers, while X is the left side of the node
+			n.X = float64(p.nodes[n].Layer) - n.W/2
+			leftmost = min(leftmost, n.X)
 		}
+	}
+	// let the drawing start at x = 0
+	for _, n := range g.Nodes {
+		n.X -= leftmost
 	}
 }
 
